@@ -55,6 +55,7 @@ type genCfg struct {
 	worldVars              bool // account variables may be valued "world"
 	negBounds              bool // overdraft bounds may be negative literals (a negative bound takes from what the balance alone would give)
 	monVars                bool // many monetary variables, used (and re-used) wherever a monetary is expected
+	readBack               bool // every usable variable is written to the transaction metadata at the end of the script: a variable is a value, no statement changes it
 }
 
 type gen struct {
@@ -584,6 +585,14 @@ func genCase(r *rand.Rand, cfg genCfg, id int) *Case {
 	for i := 0; i < ns; i++ {
 		c.Stmts = append(c.Stmts, g.stmt())
 	}
+	if cfg.readBack {
+		for _, v := range g.vars {
+			if v["usable"] == true {
+				name := v["name"].(string)
+				c.Stmts = append(c.Stmts, J{"k": "call", "name": "set_tx_meta", "args": jl(eStr("zz_"+name), eVar(name))})
+			}
+		}
+	}
 	if c.Decls == nil {
 		c.Decls = []any{}
 	}
@@ -626,6 +635,7 @@ func corpusCfg(name string) genCfg {
 		base.dsts = []string{"x", "y", "a", "b", "world"}
 		base.portionVars = true
 		base.infix = true
+		base.readBack = true
 	case "save": // C08: saves among probing sends
 		base.maxVars, base.maxStmts = 2, 5
 		base.wSend, base.wSave, base.wTx, base.wAm = 5, 5, 0, 0
@@ -678,6 +688,7 @@ func corpusCfg(name string) genCfg {
 		base.infix = true
 		base.assets = []string{"USD"}
 		base.balNums = []int{0, 2, 3, 5, 10, 12, 30, 100}
+		base.readBack = true
 	default:
 		panic("unknown corpus " + name)
 	}
